@@ -18,6 +18,9 @@ def sh(cmd, cwd=None, env=None, timeout=3600):
     return subprocess.run(cmd, shell=True, cwd=cwd, capture_output=True, text=True, env=e, timeout=timeout)
 results = {}
 res_path = os.path.join(SEED, "RESULTS.json" if not SHARD else f"RESULTS.{SHARD.split('/')[0]}.json")
+RES = next((a.split("=")[1] for a in sys.argv[1:] if a.startswith("--res=")), None)  # separate results file (parallel runs)
+if RES:
+    res_path = os.path.join(SEED, f"RESULTS.{RES}.json")
 if os.path.exists(res_path):
     results = json.load(open(res_path))
 names = sorted(d for d in os.listdir(SEED) if os.path.isdir(os.path.join(SEED, d)))
